@@ -21,6 +21,7 @@ pub struct C15;
 pub fn profile(tier: Tier) -> Profile {
     let mut p = Profile::base(if tier == Tier::Quick { 40 } else { 100 });
     p.small_cache = true;
+    p.big_batches = true;
     p.w_steps = 8;
     p.w_flush = 4;
     p.w_reopen = 1;
@@ -28,6 +29,7 @@ pub fn profile(tier: Tier) -> Profile {
     p.w_purge = 4;
     p.w_truncate = 3;
     p.w_read = 0;
+    p.big_chunks = true;
     p
 }
 
@@ -144,6 +146,11 @@ impl Prop for C15 {
                                         evicted = true;
                                     }
                                 }
+                            }
+                            Done::Rejected { kind: crate::ops::RejectKind::BatchBadTail, .. } => {
+                                // the accepted head of the batch was inserted: the over-limit
+                                // clause applies after this (partly refused) write as well
+                                over_seen |= over_limit_only_pinned(run, "after a batch whose tail entry was refused")?;
                             }
                             Done::Flushed { .. } => {
                                 accounting(run, "after flush")?;
